@@ -104,7 +104,6 @@ def register_listener(R):
     LS = "easynetwork/lowlevel/api_async/backend/_asyncio/datagram/listener.py"
     R.ghost(DGH="bytesseq", DGH_ADDR="objseq")
     R.external("asyncio.shield", "stubs.async_backend.shield")
-    R.external("collections.deque", "stubs.async_backend.PairDeque")
     R.module(ST)
     R.shape("PairDequeModel", cls="PairDeque", fields={"datas": "bytesseq", "addrs": "objseq"},
             invariant=[("parallel", "len(self.datas) == len(self.addrs)")])
